@@ -250,6 +250,7 @@ func (r *Run) mapLookup(m Ptr, key Value, mt *types.Map) (Value, bool) {
 		return r.zeroValue(mt.Elem()), false
 	}
 	md := r.mapData(m)
+	r.monitorMapRead(m.Obj)
 	for _, e := range md.Entries {
 		if r.branch(r.valueEq(key, e.Key, md.T.Key())) {
 			return r.loadT(Ptr{Obj: e.Elem}, md.T.Elem()), true
